@@ -17,7 +17,8 @@ DESIGN_REF = "DESIGN.md 6.10"
 RULE = ("random histories of create/update/remove messages from several senders (spawn times zero, past, equal to the block "
         "time, +-1 ns, future, shared by many consumers), chain-id and owner changes, opt-ins with and without keys, "
         "begin/end blocks with chosen time steps, failing launches (nobody opted in, only inactive validators, unknown "
-        "connection, CreateClient fault), channel handshakes, owner/timeout/error-ack/send-failure stops, plus a malformed "
+        "connection, every / the k-th CreateClient call of a block failing), the chain-id revision change of finding C10-F1 "
+        "as a regression, channel handshakes, owner/timeout/error-ack/send-failure stops, plus a malformed "
         "stream (wrong sender, wrong phase, unknown id, mismatching revision) and a few histories with 201-260 consumers due "
         "in one block; non-trivial = at least one launch attempt; distinct = distinct (phase edges, result codes, due bucket)")
 ASSUMPTIONS = [
